@@ -1075,6 +1075,12 @@ func genMarshalJunk(ctx *Ctx, emit func(any, string)) {
 		{jstr("AND"), jlist(jstr("CONDITION"), jstr("k"), jtnil("int"), jtnil("stack"))},
 		{jstr("AND"), jlist(jstr("CONDITION"), jstr("k"), eq, jlist(jstr("CONDITION"), jstr("j"), jop(2), jint(3)))},
 		{jstr("AND"), jlist(jstr("CONDITION"), jstr("k"), eq, jlist(jstr("CONDITION"), jstr("j")))},
+		// a well-formed outer row whose expression is a full-length row with a non-operator in the operator position
+		{jstr("AND"), jlist(jstr("CONDITION"), jstr("k"), eq, jlist(jstr("CONDITION"), jstr("j"), jint(5), jstr("v")))},
+		{jstr("OR"), jlist(jstr("CONDITION"), jstr("k"), eq, jlist(jstr("CONDITION"), jstr("j"), jnil(), jstr("v")))},
+		{jstr("LIST"), jlist(jstr("CONDITION"), jstr("k"), eq, jlist(jstr("CONDITION"), jstr("j"), jstr("="), jint(1)))},
+		{jstr("CONDITION"), jstr("k"), eq, jlist(jstr("CONDITION"), jstr("j"), jint(5), jstr("v"))},
+		{jstr("NOT"), jlist(jstr("CONDITION"), jstr("k"), eq, jlist(jstr("CONDITION"), jstr("j"), jop(0), jstr("v")))},
 		{jstr("and"), jlist(jint(5)), jlist(jstr("OR"), jint(1))},
 		{jstr("and"), jlist(jstr("OR"), jint(1)), jlist(jint(5))},
 		{jstr("AND"), jlist(jlist())},
